@@ -8,6 +8,28 @@ ALL = ['C%02d' % i for i in range(1, 21)]
 
 # pid -> (level, technique, engine, text, note, design_ref)
 CHECKS = {
+ 'C01': ('exploration',
+         'Hypothesis-generated histories on real Bert-E + real git; invariant '
+         'monitor over the remote ref journal; collect-then-ddmin shrinking',
+         'E1',
+         'Generated histories (all rule kinds, 3 modes, octopus/no_octopus, '
+         '1-4 destinations incl. stabilization / major-only / hotfix) are run '
+         'by the real code against a real bare repository; the inclusion chain '
+         '(computed from names) is checked after every ref transaction Bert-E '
+         'makes on a destination and after every job. Bounded search, no '
+         'absence claim.',
+         'in-tree mock host; bounded history length (10-30 steps) and <= 4 PRs',
+         'DESIGN.md 4/C01'),
+ 'C04': ('exploration',
+         'exhaustive enumeration of the approval predicate against a '
+         'statement-derived three-valued oracle',
+         'E2',
+         'Every tuple of the stated domain (11.7M quick / 49M thorough) is '
+         'pushed through the real handle_comments + check_approvals on a real '
+         'PullRequestJob; plus the settings-schema rule. Exhaustive for the '
+         'stated universe.',
+         'git host replaced by scripted fakes; EITHER cells listed in DESIGN.md',
+         'DESIGN.md 4/C04'),
  'C06': ('exploration',
          'exhaustive input enumeration against a statement-derived oracle '
          '(E2) + Hypothesis-generated histories on real git (E1)',
@@ -19,6 +41,92 @@ CHECKS = {
          'status table.',
          'git host replaced by fakes/mock; bounded to 4 integration branches',
          'DESIGN.md 4/C06'),
+ 'C07': ('exploration',
+         'constructive Hypothesis grammar of comment lists with known ground '
+         'truth + raw-text Hypothesis + atheris (thorough) with the safety '
+         'oracle in the target',
+         'E2',
+         'Comment lists of length <= 3 over every registered option/command, '
+         'address form, separator and poster run through the real '
+         'handle_comments; safety / blocking / inert oracles from the '
+         'statement, open cells counted as EITHER.',
+         'scripted pull request; per-author and command-line sources covered '
+         'by C04/C06',
+         'DESIGN.md 4/C07'),
+ 'C08': ('exploration',
+         'Hypothesis-generated histories + harness-owned schedule placement '
+         'of third-party actions before every push of a job; journal oracle',
+         'E1',
+         'For sampled jobs of generated histories every (push index, '
+         'third-party action) placement is executed from a snapshot; the '
+         'reference-transaction journal of the remote must show only '
+         'fast-forwards on destinations and no change outside w/ q/ tmp/.',
+         'third-party actions are placed between git commands, not inside '
+         'one; bounded histories',
+         'DESIGN.md 4/C08'),
+ 'C10': ('exploration',
+         'Hypothesis-generated histories with twin runs (fresh vs long-lived '
+         'instance from one snapshot), triple re-delivery, handler-wrapping '
+         'execution counter',
+         'E1',
+         'At generated points of generated histories an evaluation is '
+         'compared between a fresh and the long-lived instance and repeated '
+         'three times; adjacent duplicate robot messages and command '
+         're-execution are monitored after every job.',
+         'in-tree mock host; logical clock makes twin runs bit-comparable',
+         'DESIGN.md 4/C10'),
+ 'C13': ('exploration',
+         'owned thread scheduler (settrace) with Hypothesis/PCT-generated '
+         'schedules, exhaustive <=2-preemption enumeration in thorough; '
+         'outcome sweep over exception classes',
+         'E3',
+         'Real put_job/process_task/Job.__eq__ run in real threads under a '
+         'line-granular scheduler; accepted deliveries must be followed by a '
+         'later evaluation start; the worker must survive every outcome.',
+         'interleavings at source-line granularity inside bert_e.py/job.py; '
+         'queue.Queue internals atomic per line; BaseExceptions out of domain',
+         'DESIGN.md 4/C13'),
+ 'C14': ('exploration',
+         'exhaustive HTTP matrix with the Flask test client against a '
+         '(path, method)-keyed oracle table',
+         'E4',
+         'All 14 684 cells (routes from the live url_map x methods x sessions '
+         'x parameters; webhooks x credentials x repository identity x event) '
+         'are requested; refusals must be >=400/302 with an empty task queue, '
+         'accepted cells must carry the validated parameters.',
+         'BertE double as in tests/test_server.py; outgoing HTTP looped back',
+         'DESIGN.md 4/C14'),
+ 'C15': ('exploration',
+         'Hypothesis-generated histories around reset/force_reset with a '
+         'harness-side record of manual commits as oracle',
+         'E1',
+         'Generated orders of source rewrites, destination moves and manual '
+         'commits / merge commits on w/ branches precede reset; the outcome '
+         'and the ref journal are compared with what the harness knows it '
+         'created.',
+         'cells that are neither lossy nor pristine are EITHER',
+         'DESIGN.md 4/C15'),
+ 'C18': ('exploration',
+         'exhaustive bounded grammar + Hypothesis raw text + atheris '
+         '(thorough), differential against an independent recursive-descent '
+         'classifier; constructor/parser round trip',
+         'E2',
+         '393k valid names of the bounded grammar and 264k (cascade, '
+         'destination, pr id, source) triples through the real constructors '
+         'are compared with a hand-written parser sharing no regex with the '
+         'code.',
+         'documented grammar as read from USER_DOC.md; silent cells EITHER',
+         'DESIGN.md 4/C18'),
+ 'C19': ('exploration',
+         'Hypothesis-generated histories with twin runs (child / commit event '
+         'vs parent event) and ownership monitors over host state and journal',
+         'E1',
+         'Events on parents, children, source/w/q commits in generated order '
+         'over the four always_create_* combinations; uniqueness, titles, '
+         'cleanup on decline/merge and event-redirection twins are checked '
+         'after every job.',
+         'in-tree mock host; <= 3 PRs',
+         'DESIGN.md 4/C19'),
 }
 
 NA_REASON = 'check not built yet in this session (work in progress; see DESIGN.md section 8)'
